@@ -73,7 +73,26 @@ func genRec(cfg Config, emit func(string, bool, []string)) {
 				refresh = "-refresh-init"
 			}
 		}
+		gcCase := c%25 == 17
+		if gcCase {
+			mode = "oracle" // time passes inside an Update: decided by the oracle only
+		}
 		add("cfg %d %d %d %s%s%s%s", minB, maxB, roundSize, mode, set, map[int]string{0: "", 1: "-batch"}[batch], refresh)
+		if gcCase {
+			// the reconciler has not been handed any deletion yet; while it is busy in an Update the user
+			// deletes another object and the collector runs on behalf of another iterator
+			add("put 1 %d", r.IntN(100))
+			add("advance 7")
+			add("inject 2 gc 1 0")
+			add("put 2 %d", r.IntN(100))
+			add("advance 33")
+			add("obs")
+			add("advance 3001") // the Update (and the collector run inside it) is over
+			add("obs")
+			add("put 3 %d", r.IntN(100))
+			add("advance 33")
+			add("obs")
+		}
 		nid := 1 + r.IntN(4)
 		clock := 0
 		if refresh != "" {
@@ -311,11 +330,13 @@ type recExec struct {
 	failStreak    map[uint64][]time.Duration
 	attempts      map[uint64]int
 	k4            map[uint64]bool
-	delRev        map[uint64]uint64 // revision of the user's deletion of an object
-	lwSamples     []lwSample        // low-watermark as reported while a round is in progress
-	refresh       time.Duration     // refresh interval (0 = refreshing and pruning disabled)
-	raw           map[uint64]bool   // objects written without a reconciliation request
-	withInit      bool              // the table has an initializer that stays pending until `initdone`
+	delRev        map[uint64]uint64        // revision of the user's deletion of an object
+	lwSamples     []lwSample               // low-watermark as reported while a round is in progress
+	refresh       time.Duration            // refresh interval (0 = refreshing and pruning disabled)
+	raw           map[uint64]bool          // objects written without a reconciliation request
+	side          statedb.RWTable[*recObj] // an unrelated table with a plain change iterator (another user of the collector)
+	sideIter      statedb.ChangeIterator[*recObj]
+	withInit      bool // the table has an initializer that stays pending until `initdone`
 	initDone      func(statedb.WriteTxn)
 	retained      []retainedObj // object versions read earlier, with what they looked like then
 	inUpdate      uint64
@@ -388,6 +409,11 @@ type recTarget struct {
 }
 
 func (e *recExec) Close() {
+	if e.sideIter != nil {
+		// closed here, inside the bubble: the runtime cleanup of an unreachable iterator would run outside
+		e.sideIter.Close()
+		e.sideIter = nil
+	}
 	if e.hive != nil {
 		e.hive.Stop(e.log, context.Background())
 	}
@@ -512,6 +538,10 @@ func (e *recExec) setup(minB, maxB, roundSize int, batch bool) {
 		),
 		cell.Invoke(func(db *statedb.DB) (err error) {
 			e.db = db
+			e.side, err = statedb.NewTable(db, "rec-side", recIDIndex)
+			if err != nil {
+				return err
+			}
 			e.table, err = statedb.NewTable(db, "rec-objects", recIDIndex)
 			if err == nil && e.withInit {
 				// a table initializer that stays pending until the `initdone` op
@@ -644,6 +674,30 @@ func (e *recExec) del(id uint64) {
 	}
 	e.mu.Unlock()
 	wtxn.Commit()
+}
+
+// sideGC: a deletion in the side table is observed by its iterator (that is what triggers a collection
+// run), then virtual time passes so that the rate-limited collector completes its run
+func (e *recExec) sideGC() {
+	if e.sideIter == nil {
+		w := e.db.WriteTxn(e.side)
+		it, err := e.side.Changes(w)
+		w.Commit()
+		if err != nil {
+			return
+		}
+		e.sideIter = it
+	}
+	w := e.db.WriteTxn(e.side)
+	e.side.Insert(w, &recObj{ID: 1})
+	w.Commit()
+	w = e.db.WriteTxn(e.side)
+	e.side.Delete(w, &recObj{ID: 1})
+	w.Commit()
+	seq, _ := e.sideIter.Next(e.db.ReadTxn())
+	for range seq {
+	}
+	time.Sleep(2500 * time.Millisecond)
 }
 
 func (e *recExec) multi(specs []string) {
@@ -788,7 +842,7 @@ func (e *recExec) settleOracle(o *Out) {
 		if obj.Data != ref.data || obj.Other != ref.other {
 			o.Fail("C15", "status-write-changed-data", nil, fmt.Sprintf("object %d has data=%d other=%d, the user wrote data=%d other=%d", obj.ID, obj.Data, obj.Other, ref.data, ref.other))
 		}
-		if obj.GetStatus().Kind == reconciler.StatusKindPending {
+		if obj.GetStatus().Kind == reconciler.StatusKindPending && e.inUpdate == 0 {
 			// a quiet point: every goroutine is blocked on a timer or a channel (synctest.Wait), the round
 			// limiter is unlimited; nothing but a later write would make the loop look at this object again
 			o.Fail("C14", "pending-object-while-idle", map[string]string{"batch": strconv.FormatBool(e.batch), "round_size": strconv.Itoa(e.roundSize)},
@@ -814,7 +868,8 @@ func (e *recExec) settleOracle(o *Out) {
 		}
 	}
 	for id := range e.delRev {
-		if _, live := e.ref[id]; live || !e.target[id].present {
+		if _, live := e.ref[id]; live || !e.target[id].present || e.inUpdate != 0 {
+			// (an Update that is still in flight — it may be sleeping in an injected step — is not idleness)
 			continue
 		}
 		// deleted by the user, still in the target: a Delete must have been attempted (and failed) since
@@ -1036,6 +1091,13 @@ func (e *recExec) Do(o *Out, f []string) string {
 			fn = func() { e.put(tid, d) }
 		case "del":
 			fn = func() { e.del(tid) }
+		case "gc":
+			// while the Update is in flight: the user deletes object tid, and ANOTHER change iterator
+			// (on an unrelated table) observes a deletion, which makes the collector run
+			fn = func() {
+				e.del(tid)
+				e.sideGC()
+			}
 		default:
 			fn = func() { e.touch(tid) }
 		}
@@ -1048,6 +1110,20 @@ func (e *recExec) Do(o *Out, f []string) string {
 	case "obs":
 	case "final":
 		synctest.Wait()
+		// an Update still in flight (sleeping in an injected step) is let finish, then the quiet
+		// period of the convergence clause starts over
+		for k := 0; k < 20; k++ {
+			e.mu.Lock()
+			busy := e.inUpdate != 0
+			e.mu.Unlock()
+			if !busy {
+				break
+			}
+			time.Sleep(time.Second)
+			synctest.Wait()
+			time.Sleep(4*e.maxB + time.Millisecond)
+			synctest.Wait()
+		}
 		e.finalOracle(o)
 		return "-"
 	default:
